@@ -155,6 +155,20 @@ def gen_single(rng, idx):
             'newloglam': new, 'kwargs': {'aesthetics': method}, 'extras': extras, 'level': level}
 
 
+def gen_const_noivar(rng, idx):
+    """exactly constant flux, no inverse variance (iterfit then derives its weights from the variance of the data, which
+    is zero), all aesthetics methods incl. damp"""
+    n = rng.randint(60, 120)
+    l0 = 3.5
+    level = [1.0, 3.0, 7.25, 100.0, 0.5][idx % 5]
+    variant = ['same', 'shift', 'wider', 'narrower'][idx % 4]
+    method = ['traditional', 'mean', 'damp', 'nothing', 'noconst', 'damp'][idx % 6]
+    with_ivar = idx % 3 == 2
+    return {'f': 'combine', 'shape': 'single', 'kind': 'const', 'variant': variant, 'inloglam': [l0 + DL * i for i in range(n)],
+            'flux': [level] * n, 'ivar': ([4.0] * n if with_ivar else None), 'newloglam': out_grid(rng, n, l0, variant),
+            'kwargs': {'aesthetics': method}, 'extras': {}, 'level': level}
+
+
 def gen_stack(rng, idx):
     nspec = rng.randint(2, 3)
     n = rng.randint(108, 130)
@@ -163,8 +177,11 @@ def gen_stack(rng, idx):
     per = rng.choice([40.0, 90.0])
     a = C.dyadic(rng, 1, 3, 2)
     const = idx % 4 == 2
+    partial = idx % 3 == 1                 # exposures covering DIFFERENT wavelength ranges
     for s in range(nspec):
         off = rng.choice([0.0, 0.25, 0.5, 0.75]) if s else 0.0
+        if partial and s:
+            off += rng.choice([-1, 1]) * rng.randint(15, 45)
         grid = [l0 + DL * (i + off) for i in range(n)]
         base = rng.choice([1.0, 4.0, 16.0])
         iv = [base * rng.choice([1.0, 1.0, 0.5, 2.0]) for _ in range(n)]
@@ -179,7 +196,11 @@ def gen_stack(rng, idx):
         flux.append(fx)
         ivar.append(iv)
     variant = ['same', 'shift', 'wider', 'coarser'][idx % 4]
-    new = out_grid(rng, n, l0, variant)
+    if partial:
+        variant = 'wider'
+        new = [l0 + DL * (i - 60) for i in range(n + 120)]
+    else:
+        new = out_grid(rng, n, l0, variant)
     method = ['traditional', 'mean', 'noconst', 'nothing'][idx % 4]
     extras = {'scale': rng.choice([2.0, 0.5, 4.0])} if idx % 2 == 0 else {}
     return {'f': 'combine', 'shape': 'stack', 'kind': 'const' if const else 'smooth', 'variant': variant, 'inloglam': inl,
@@ -251,6 +272,7 @@ def correspond(ctx, proof_ok=True):
         raise RuntimeError('C11/Model.v does not build:\n' + log[-2000:])
     rng = ctx.rng
     calls = [gen_single(rng, i) for i in range(ctx.n(69, 600))]
+    calls += [gen_const_noivar(rng, i) for i in range(ctx.n(12, 60))]
     calls += [gen_stack(rng, i) for i in range(ctx.n(12, 100))]
     calls += [gen_preprocess(rng, i) for i in range(ctx.n(6, 40))]
     nb = 8
@@ -327,6 +349,17 @@ def correspond(ctx, proof_ok=True):
         stats['rejected_pixels'] += sum(1 for f in r['fits'] if f for b in f['bmask'] if not b)
         nf, ni = r['newflux'], r['newivar']
         good_out = [v > 0 for v in ni]
+        # where the input is good and smooth the output reproduces it: with no bad input pixel and nothing to reject,
+        # every output pixel well inside the input range must carry variance (not vacuous checks below)
+        fl_in = flat(c['inloglam'])
+        iv_in = flat(c['ivar'])
+        if c['shape'] == 'single' and c['kind'] in ('const', 'smooth') and (iv_in is None or min(iv_in) > 0):
+            lo_in, hi_in = fl_in[3], fl_in[-4]
+            lost = [k for k in range(n_new) if lo_in <= c['newloglam'][k] <= hi_in and not good_out[k]]
+            if lost:
+                viol('C11:combine1fiber:%s:good-input-lost' % var,
+                     'all input pixels are good and smooth, yet %d output pixels well inside the input range have no inverse '
+                     'variance (first: %d)' % (len(lost), lost[0]), c, r)
         # constant spectrum stays constant
         if c['kind'] == 'const':
             stats['const_checks'] += 1
@@ -334,7 +367,13 @@ def correspond(ctx, proof_ok=True):
             meth = c['kwargs']['aesthetics']
             where = [k for k in range(n_new) if good_out[k] or (meth in ('traditional', 'noconst', 'mean') and any(good_out))]
             if any(abs(nf[k] - lvl) > 1e-9 * (1 + abs(lvl)) for k in where):
-                viol('C11:combine1fiber:constant-not-preserved', 'a constant spectrum does not stay constant', c, r)
+                if meth == 'damp':
+                    dev = max(abs(nf[k] - lvl) for k in where)
+                    viol('C11:combine1fiber:constant-not-preserved:aesthetics=damp',
+                         "aesthetics='damp' multiplies the whole spectrum (good pixels included) by its erf taper: a constant "
+                         'spectrum %g comes back changed by up to %.3g on pixels with positive inverse variance' % (lvl, dev), c, r)
+                else:
+                    viol('C11:combine1fiber:constant-not-preserved', 'a constant spectrum does not stay constant', c, r)
         # same grid = identity to interpolation accuracy (smooth, noise-free input)
         if c['variant'] == 'same' and c['kind'] == 'smooth' and c['shape'] == 'single':
             stats['same_grid_checks'] += 1
